@@ -78,6 +78,23 @@ extern "C" void vp_thr_sb(int tid, int fence) {
   if (fence == 1) tbb::detail::atomic_fence_seq_cst();      // the real oneTBB full-fence helper (_machine.h)
   vp_sb_result(tid, vp_sb_x[1 - tid].load(std::memory_order_relaxed));
 }
+// ---- scoped_lock object reused for two cycles (w_reuse.h, h_reuse.c); the object lives in harness storage
+#include "w_reuse.h"
+extern "C" void vp_thr_qm_re(queuing_mutex* m, queuing_mutex::scoped_lock* node, int tid, int op1, int op2) {
+  queuing_mutex::scoped_lock& l = *new (node) queuing_mutex::scoped_lock;
+  vp_x_cycle(l, m, tid, op1);
+  if (op2 != VP_NONE) { vp_cycle(tid); vp_x_cycle(l, m, tid, op2); }
+  vp_done(tid);
+}
+extern "C" void vp_thr_rw_re(spin_rw_mutex* m, spin_rw_mutex::scoped_lock* node, int tid, int r1, int r2) {
+  spin_rw_mutex::scoped_lock& l = *new (node) spin_rw_mutex::scoped_lock;
+  vp_rw_cycle(l, m, tid, r1);
+  if (r2 != VP_NONE) { vp_cycle(tid); vp_rw_cycle(l, m, tid, r2); }
+  vp_done(tid);
+}
+// a further cycle by a fresh object after everybody finished (sequential): must succeed at once
+extern "C" int vp_qm_fresh(queuing_mutex* m) { queuing_mutex::scoped_lock l; bool ok = l.try_acquire(*m); if (ok) l.release(); return ok; }
+extern "C" int vp_rw_fresh(spin_rw_mutex* m) { bool ok = m->try_lock(); if (ok) m->unlock(); return ok; }
 // accessors used by the harness oracles (white-box via -fno-access-control)
 extern "C" unsigned long vp_sm_word(spin_mutex* m) { return m->m_flag.load(std::memory_order_relaxed); }
 extern "C" unsigned long vp_qm_word(queuing_mutex* m) { return (unsigned long)m->q_tail.load(std::memory_order_relaxed); }
